@@ -38,6 +38,15 @@ BARRIER_OPS = {"wait", "reset", "abort"}
 
 
 MUTANTS = [
+    ("pool joined in the finally block before the release",
+     "AegeanTools/BANE.py",
+     "    finally:\n        ibkg.close()",
+     "    finally:\n        pool.join()\n        ibkg.close()", "C07-R4"),
+    ("result logged in the finally block before the release",
+     "AegeanTools/BANE.py",
+     "    finally:\n        ibkg.close()",
+     "    finally:\n        logging.debug(bkg.shape)\n        ibkg.close()",
+     "C07-R4"),
     ("pool of cores", "AegeanTools/BANE.py",
      "pool = ctx.Pool(processes=max(cores, len(ymaxs)), maxtasksperchild=1,",
      "pool = ctx.Pool(processes=cores, maxtasksperchild=1,", "C07-R1"),
@@ -94,6 +103,10 @@ MUTANTS = [
      "pool = ctx.Pool(processes=max(cores, nslice), maxtasksperchild=1,", "C07-R1"),
 ]
 TWINS = [
+    ("pool terminated and joined before the release", "AegeanTools/BANE.py",
+     "    finally:\n        ibkg.close()",
+     "    finally:\n        pool.terminate()\n        pool.join()\n"
+     "        ibkg.close()"),
     ("processes exactly parties", "AegeanTools/BANE.py",
      "pool = ctx.Pool(processes=max(cores, len(ymaxs)), maxtasksperchild=1,",
      "pool = ctx.Pool(processes=len(ymaxs), maxtasksperchild=1,"),
@@ -619,6 +632,92 @@ def r4(ctx, parent):
                       "function without %s(): the segment stays in /dev/shm"
                       % (nm, op), node=s,
                       path=cfg.describe(bad) if bad else None)
+    # typestate of the pool: join() only after close() / terminate()
+    pools = [(n, st.targets[0].id) for n, st in cfg.stmt.items()
+             if cfg.kind[n] == "stmt" and isinstance(st, ast.Assign)
+             and isinstance(st.value, ast.Call)
+             and norm(st.value.func).split(".")[-1] == "Pool"
+             and isinstance(st.targets[0], ast.Name)]
+    for pn, pname in pools:
+        def nodes_calling(meths):
+            return {m for m, st in cfg.stmt.items() if cfg.kind[m] == "stmt"
+                    and any(isinstance(c, ast.Call) and norm(c.func) in
+                            ["%s.%s" % (pname, x) for x in meths]
+                            for c in ast.walk(st))}
+        closed = nodes_calling(("close", "terminate"))
+        for jn in sorted(nodes_calling(("join",))):
+            p_ = cfg.path_avoiding(pn, jn, closed)
+            ctx.check("C07-R4", parent, "%s.join() only on a closed pool" %
+                      pname, p_ is None,
+                      "a path reaches %s.join() while the pool is still "
+                      "running (no close() / terminate() before it -- e.g. "
+                      "when a worker failed): Pool.join() then raises "
+                      "ValueError, which replaces the worker's error and "
+                      "skips every statement after it, including the "
+                      "release of the shared memory" % pname,
+                      node=cfg.stmt[jn],
+                      path=cfg.describe(p_) if p_ else None)
+    # names read in the releasing finally block before the last release are
+    # bound on every path that enters it
+    import builtins
+    segs = {nm for _, nm, _ in created}
+    for t in walk_no_nested(parent.node):
+        if not (isinstance(t, ast.Try) and t.finalbody):
+            continue
+        rel_idx = [k for k, st in enumerate(t.finalbody) if any(
+            isinstance(c, ast.Call) and isinstance(c.func, ast.Attribute)
+            and norm(c.func.value) in segs and c.func.attr in ("close",
+                                                               "unlink")
+            for c in ast.walk(st))]
+        if not rel_idx:
+            continue
+        for st in t.finalbody[:rel_idx[-1] + 1]:
+            head = st.test if isinstance(st, (ast.If, ast.While)) else st
+            for nm_ in sorted({x.id for x in ast.walk(head)
+                               if isinstance(x, ast.Name) and
+                               isinstance(x.ctx, ast.Load)}):
+                if nm_ in segs or hasattr(builtins, nm_) or \
+                        nm_ in parent.params:
+                    continue
+                defs = {m for m, s_ in cfg.stmt.items()
+                        if any(isinstance(x, ast.Name) and x.id == nm_ and
+                               isinstance(x.ctx, ast.Store)
+                               for x in ast.walk(s_.target if isinstance(
+                                   s_, ast.For) else s_ if isinstance(
+                                       s_, (ast.Assign, ast.AugAssign,
+                                            ast.Global)) else ast.Pass()))}
+                if not defs:
+                    continue        # module-level name / import
+                # the property's fault model: a worker fails, i.e. the
+                # statement that dispatches / collects the tasks raises
+                disp = [m for m, s_ in cfg.stmt.items()
+                        if cfg.kind[m] == "stmt" and any(
+                            isinstance(c, ast.Call) and
+                            isinstance(c.func, ast.Attribute) and
+                            c.func.attr in ("map", "map_async", "starmap",
+                                            "imap", "imap_unordered",
+                                            "apply_async", "starmap_async")
+                            for c in ast.walk(s_))]
+                if not disp:
+                    raise AnalysisError("C07-R4: task dispatch statement "
+                                        "not found")
+                bad_p = None
+                for un in cfg.nodes_for_stmt(st):
+                    for dn in disp:
+                        if any(cfg.dominates(d_, dn) for d_ in defs):
+                            continue
+                        bad_p = bad_p or cfg.path_avoiding(dn, un, defs)
+                for un in cfg.nodes_for_stmt(st)[:1]:
+                    p_ = bad_p
+                    ctx.check("C07-R4", parent, "`%s` bound wherever the "
+                              "releasing finally block reads it" % nm_,
+                              p_ is None, "`%s` is read before the shared "
+                              "memory is released but is not assigned on "
+                              "every path into the finally block (e.g. after "
+                              "a worker failure): the NameError skips the "
+                              "release" % nm_, node=st,
+                              path=cfg.describe(p_) if p_ else None)
+                    break
     # independence of releases
     if len(order) >= 2:
         first, second = order[0], order[1]
